@@ -74,7 +74,8 @@ def tokenize(s: str):
         if i + 1 < n and s[i + 1] in "!?":
             flush()
             j = s.find(">", i)
-            evs.append({"e": "other", "name": "bogus", "attrs": [], "t": []})
+            kind = "doctype" if s[i:i + 9].lower() == "<!doctype" else "bogus"
+            evs.append({"e": "other", "name": kind, "attrs": [], "t": []})
             i = n if j == -1 else j + 1
             continue
         if i + 2 < n and s[i + 1] == "/" and _is_alpha(s[i + 2]):
